@@ -593,6 +593,8 @@ def cond_coq(c):
         return "(CMapKeys " + lib.clist([f"({elt_coq(a)}, {epat_coq(b)})" for a, b in c[1]]) + ")"
     if k == "pand":
         return f"(CPAnd {cond_coq(c[1])} {cond_coq(c[2])})"
+    if k == "ifexp":
+        return f"(CIfExp {lib.cbool(c[1])} {cond_coq(c[2])} {cond_coq(c[3])})"
     if k == "assertinst":
         return f"(CAssertInst {U.COQ_CLS[c[1]]})"
     if k == "assertis":
@@ -699,6 +701,8 @@ def py_holds(c, o):
         raise Raises(repr(ex))
     if k == "not":
         return not py_holds(c[1], o)
+    if k == "ifexp":
+        return py_holds(c[2], o) if c[1] else py_holds(c[3], o)
     if k == "pand":
         return py_holds(c[1], o) and py_holds(c[2], o)
     if k == "and":
@@ -717,6 +721,8 @@ def py_cond_ok(c, o):
         return py_cond_ok(expand(c[1]), o)
     if k == "pand":
         return py_cond_ok(c[1], o) and py_cond_ok(c[2], o)
+    if k == "ifexp":
+        return py_cond_ok(c[2], o) and py_cond_ok(c[3], o)
     if k == "eq":
         l = lit_py(c[1])
         return not (o == l) or type(o) is type(l)
@@ -737,6 +743,8 @@ def tested_of(c):
         return tested_of(expand(c[1]))
     if k == "pand":
         return tested_of(c[1]) + tested_of(c[2])
+    if k == "ifexp":
+        return tested_of(c[2]) + tested_of(c[3])
     if k == "assertinst":
         return ((("typed", c[1]), ()),)
     if k == "assertis":
@@ -930,6 +938,11 @@ def build_constraint(c, varname):
         return NULL_CONSTRAINT
     if k == "pand":
         return AndConstraint.make([build_constraint(c[1], varname), build_constraint(c[2], varname)])
+    if k == "ifexp":
+        # the value of `(a) if f() else (b)` is a union whose members carry the two constraints
+        from pyanalyze.stacked_scopes import AlternativesConstraint
+
+        return AlternativesConstraint.make([build_constraint(c[2], varname), build_constraint(c[3], varname)])
     if k == "truthy":
         return Constraint(varname, ConstraintType.is_truthy, True, None)
     if k == "isinstance":
@@ -1032,6 +1045,10 @@ def cond_src(c, defs, idx):
         return "opq()"
     if k == "hasattr":
         return f'hasattr(x, "{c[1]}")'
+    if k == "ifexp":
+        a = cond_src(c[2], defs, idx)
+        b = cond_src(c[3], defs, idx)
+        return None if a is None or b is None else f"(({a}) if opq() else ({b}))"
     if k == "not":
         e = cond_src(c[1], defs, idx)
         return None if e is None else f"not ({e})"
@@ -1058,6 +1075,8 @@ def simple_boolop(c):
 
 
 def leaves_of(c):
+    if c[0] == "ifexp":
+        return leaves_of(c[2]) + leaves_of(c[3])
     if c[0] == "after":
         return leaves_of(c[1]) + leaves_of(c[2])
     if c[0] == "pat":
@@ -1349,6 +1368,10 @@ def all_leaves():
     out.append(("always",))
     out += [("opaque", True), ("opaque", False)]
     out += [("pat", p) for p in all_patterns()]
+    # union-valued conditions (AlternativesConstraint), both values of the opaque selector
+    alt_ops = [("isinstance", ("int",)), ("isinstance", ("str",)), ("is", ("none",)), ("eq", ("int", 1)), ("not", ("isinstance", ("str",))),
+               ("not", ("is", ("none",))), ("isinstance", ("A",)), ("in", (("int", 1), ("str", "a")))]
+    out += [("ifexp", fl, a, b) for fl in (True, False) for a in alt_ops for b in alt_ops if a != b]
     # assert-style constraint types (is_instance, is_value, add_annotation)
     out += [("assertinst", c) for c in ("int", "float", "bool", "str", "A", "B", "C", "tuple", "object", "type", "EnumMeta", "list")]
     out += [("not", ("assertinst", c)) for c in ("int", "float", "complex", "A", "object")]
@@ -1365,7 +1388,7 @@ def is_simple_pattern(c):
     pattern): the implementation then feeds a MultiValuedValue to the next constraint, which
     Constraint.apply_to_value's docstring excludes; kept out of composite conditions."""
     k = c[0]
-    if k == "pat":
+    if k in ("pat", "ifexp"):
         return False
     if k in ("isinstance", "issubclass", "typeis"):
         return len(c[1]) == 1
@@ -1494,6 +1517,10 @@ def run(tier: str, replay: str | None = None):
             return l[0] in ("truthy", "len", "rlen", "pat", "seqis", "seqlen", "mapis", "assertinst", "matchclass", "always")
 
         def in_quick(sv, l):
+            if l[0] == "ifexp":
+                b = sv[0]
+                return not sv[1] and (b in (("any",), ("typed", "int"), ("typed", "str"), ("typed", "object"), ("typed", "A"), ("known", ("none",)),
+                                            ("known", ("int", 1)), ("typed", "bool")) or b == ("tuple", ((True, "int"),)))
             if pattern_leaf(l) and not pattern_relevant(sv):
                 return False
             return not collection_sval(sv) or collection_leaf(l)
@@ -1542,7 +1569,7 @@ def run(tier: str, replay: str | None = None):
         # every case: both narrowed values and the boolability; the per-object facts (spec vs CPython,
         # guard clauses) for every case in the thorough tier / a replay, for 1 case in 5 in the quick
         # tier, and afterwards (second batch) for every case on which the oracle found a failure
-        full_idx = set(i for i in range(len(cases)) if tier != "quick" or replay or i % 5 == 0)
+        full_idx = set(i for i in range(len(cases)) if tier != "quick" or replay or i % 8 == 0)
         terms = [model_term(v, c, i in full_idx) for i, (v, c) in enumerate(cases)]
 
         def _eval_model():
@@ -1577,7 +1604,7 @@ def run(tier: str, replay: str | None = None):
         # (single value, leaf) pairs only with probability 1/2 (deterministic in the case)
         if tier != "quick" or replay or len(v) > 1 or c[0] in ("pat", "assertinst", "assertis", "hasattr", "len", "rlen", "not", "and", "or", "matchclass"):
             return True
-        return zlib.crc32(repr((lib.seed(), v, c)).encode()) % 2 == 0
+        return zlib.crc32(repr((lib.seed(), v, c)).encode()) % 3 == 0
 
     for i, (v, c) in enumerate(cases):
         if not e2e_wanted(i, v, c):
